@@ -87,9 +87,9 @@ def admissible_process(inp):
 
 PROC_FALLBACK = [
     {"mixture": "H2O_EtOH", "A": 0.04155, "T0": 333.15, "m0": 12.0, "x0": 0.94, "dt": 0.5, "prec": 5e-5, "Tp": 293.15, "Pp": 0.6,
-     "tc0": 333.15, "tc1": -1.5, "tc2": 0.01},
+     "tc0": 333.15, "tc1": -1.5, "tc2": 0.01, "tc3": -0.02, "tc4": 0.003},
     {"mixture": "H2O_iPOH", "A": 0.5, "T0": 350.0, "m0": 3.0, "x0": 0.3, "dt": 0.25, "prec": 1e-4, "Tp": 283.15, "Pp": 2.0,
-     "tc0": 350.0, "tc1": -0.8, "tc2": 0.002},
+     "tc0": 350.0, "tc1": -0.8, "tc2": 0.002, "tc3": 0.01, "tc4": -0.001},
 ]
 
 
@@ -102,11 +102,11 @@ def proc_fallback(mode, program=None):
         if mode != "ppres":
             f.pop("Pp")
         if program == "exponential":
-            f.update(tc0=f["T0"], tc1=-0.004, tc2=0.0)
+            f.update(tc0=f["T0"], tc1=-0.004, tc2=0.001, tc3=-0.0002, tc4=0.00003)
         elif program == "logarithmic":
-            f.update(tc0=100.0, tc1=math.exp(f["T0"] / 100.0), tc2=-0.3)
+            f.update(tc0=100.0, tc1=math.exp(f["T0"] / 100.0), tc2=-0.3, tc3=0.02, tc4=-0.001)
         elif program is None:
-            for k in ("tc0", "tc1", "tc2"):
+            for k in ("tc0", "tc1", "tc2", "tc3", "tc4"):
                 f.pop(k)
         out.append(f)
     return out
